@@ -217,3 +217,21 @@ def run(ctx):
         ctx.inst("R12.5", "calc-fee-formula", bad is None and seen_nonzero, qa.fn.where(), bad or "toll = amount*toll_ratio/decimals, spread = amount*spread_ratio/decimals")
     except KeyError as e:
         ctx.lost("R12.5", str(e))
+
+
+    # ---------------------------------------------------------------- R12.6
+    # a fee is moved exactly when it is non-zero: every fee message (amount = a field of the vAMM's CalcFee answer) an
+    # Open / Close chain can emit carries an amount that is non-zero by a fact of the emitting path.  A fee message built
+    # under the inverted test would be the zero transfer (rejected, the trade reverts) and a non-zero fee would go unpaid.
+    from .nonzero import nonzero_instances
+
+    def is_fee_amount(v):
+        vi = ix.inline(v)
+        if tag(vi) == "field" and payload(vi)[0] in ("spread_fee", "toll_fee"):
+            q_ = ix.parse_query(kids(vi)[0])
+            mv_ = ix.msg_variant(q_["msg"]) if q_ and q_.get("msg") is not None else None
+            return bool(mv_ and mv_[1] == "CalcFee")
+        return False
+    nonzero_instances(ctx, em, "R12.6", "every fee message an Open / Close chain can emit carries a fee that is non-zero by a fact of the emitting path (a fee is transferred iff it is non-zero)", 5,
+                      lambda ckey: ckey.startswith(("OpenPosition>", "ClosePosition>")), "the zero transfer is rejected and the trade reverts, while a non-zero fee is not charged",
+                      select=is_fee_amount)
